@@ -299,6 +299,7 @@ class Bus {
   uint8_t echoCorruptXor = 0x04;
   long hostBytes = 0;
   std::deque<PeerScript> peers;         // behaviour for successive host initiated exchanges
+  bool derivedResponses = false;        // default peers answer with data derived from the request (C04)
   // reactive state for host-initiated exchanges
   struct Track { int phase = 0; std::vector<uint8_t> wire; uint8_t crc = 0; bool esc = false; std::vector<uint8_t> part; int attempt = 0; bool crcOk = false;
                  int respAttempt = 0; } tr;
@@ -597,6 +598,10 @@ class Bus {
   }
   void sendResponse() {
     std::vector<uint8_t> part = curPeer.resp;
+    if (part.empty() && derivedResponses && tr.part.size() >= 5) {
+      // the response identifies the request it answers (cross-delivery becomes visible): NN=3, PB, SB, first data byte
+      part = {3, tr.part[2], tr.part[3], (uint8_t)(tr.part.size() > 5 ? tr.part[5] : 0)};
+    }
     if (part.empty()) part.push_back(0);
     if (tr.respAttempt == 1 && curPeer.respAltSecond && part.size() > 1) part.back() ^= 0x5a;
     std::vector<uint8_t> w = specWire(part, curPeer.respCrcXor[tr.respAttempt]);
